@@ -175,7 +175,7 @@ automata *switch_state_enumeration(automata *autom, int input, char *debug) {
 automata *init_automata_session(void) {
     automata *autom = lltd_port_malloc(sizeof(automata));
     autom->states_no = 4;
-    autom->transitions_no = 16;
+    autom->transitions_no = 17;
     autom->last_ts = lltd_monotonic_seconds();
     autom->name = "Session";
     autom->extra = NULL;
@@ -213,6 +213,8 @@ automata *init_automata_session(void) {
     t[13].from = 3; t[13].to = 1; t[13].with = -1;
     t[14].from = 3; t[14].to = 3; t[14].with = sess_discover_acking_chgd_xid;
     t[15].from = 3; t[15].to = 2; t[15].with = sess_discover_noack_chgd_xid;
+    /* t[12] is keyed on the raw Reset opcode (legacy glue feeds opcodes); the session event must work too */
+    t[16].from = 3; t[16].to = 1; t[16].with = sess_reset;
 
     return autom;
 }
